@@ -92,10 +92,11 @@ def register : M Unit := do
   let w ← getW
   let r ← exchange .newAccount w.acc.curKey
   match r with
-  | .ok (.account _ hasLocation) =>
+  | .ok (.account _ hasLocation existing) =>
     if hasLocation then do
       modAcc fun a => { a with hasUrl := true, contactsInSync := true, bindingInSync := true,
-                               recKey := a.curKey, caKey := a.curKey }
+                               recKey := a.curKey, caKey := a.curKey,
+                               caContactsOk := !existing || a.caContactsOk }
       saveAccount
     else failAt .register
   | _ => failAt .register
@@ -108,7 +109,7 @@ def updateContacts : M Unit := do
   let r ← exchange .accountUpdate w.acc.curKey
   match r with
   | .ok _ => do
-    modAcc fun a => { a with contactsInSync := true }
+    modAcc fun a => { a with contactsInSync := true, caContactsOk := true }
     saveAccount
   | .acmeErr .accountDoesNotExist => register
   | _ => failAt .accountUpdate
@@ -128,8 +129,10 @@ def updateKey : M Unit := do
     | _ => failAt .keyChange
   else failAt .pastKey
 
-/-- `Account::synchronize` (`account.rs:205-236`).  `contacts_changed` and `key_changed` are both
-computed BEFORE either update runs (`:220-223`). -/
+/-- `Account::synchronize` (`account.rs:205-243`).  `contacts_changed` and `key_changed` are both
+computed BEFORE either update runs (`:228-231`).  Binding changed (`:208-226`): the flags are
+computed before `register_account` (which refreshes the three fingerprints), and since 549b756 a
+pending contact edit is still sent afterwards when the key did not change. -/
 def synchronize (v : Variant) : M Unit := do
   let w ← getW
   if w.acc.hasUrl then
@@ -140,7 +143,10 @@ def synchronize (v : Variant) : M Unit := do
       else do
         (if !w.acc.contactsInSync then updateContacts else pure ())
         (if !w.acc.keyInSync then updateKey else pure ())
-    else register
+    else do
+      register
+      (if v.bindingThenContacts && (!w.acc.contactsInSync && w.acc.keyInSync) then updateContacts
+       else pure ())
   else register
 
 /-! ### Order, authorisations (`acme_proto.rs:108-225`) -/
